@@ -60,6 +60,9 @@ static inline void C04_to_string(vstr* ret, int64_t v)
   uint64_t mag = v < 0 ? (uint64_t)0 - (uint64_t)v : (uint64_t)v;
   unsigned n = nondet_C04_unsigned();
   __CPROVER_assume(n >= 1 && n <= 19);
+#ifdef C04_NDIG
+  __CPROVER_assume(n == C04_NDIG);
+#endif
   g_ndigits = n;
   ret->size = 0;
   if (v < 0) vstr_push_back(ret, '-');
@@ -70,6 +73,7 @@ static inline void C04_to_string(vstr* ret, int64_t v)
       __CPROVER_assume(d <= 9);
       __CPROVER_assume(d != 0 || k != 0 || n == 1);
       m = m * 10 + d;
+      __CPROVER_assume(m <= mag);      /* implied by the final equation (a prefix of a numeral denotes at most the whole); stated to help the solver */
       vstr_push_back(ret, (char)('0' + d));
     }
   }
